@@ -219,22 +219,54 @@ class _Solar:
     return np.asarray(out, dtype=np.float64)
 
 
+def _sign_stats(fl, night, day):
+  """per-time reductions of a (T, N) field: min, max, extreme values on the reference night side, min on the day side.
+  NaN propagates through every reduction, so a non-finite value fails the comparisons made on these numbers."""
+  mn = fl.min(axis=1)
+  mx = fl.max(axis=1)
+  scratch = np.multiply(fl, night)
+  night_hi = scratch.max(axis=1)
+  night_lo = scratch.min(axis=1)
+  np.copyto(scratch, 1.0)
+  np.copyto(scratch, fl, where=day)
+  day_lo = scratch.min(axis=1)
+  return mn, mx, night_hi, night_lo, day_lo
+
+
 def _solar_chunk(S, rec, minutes, t_nd, *, shifts, tag):
   """All oracles for one chunk of times (one day)."""
   import jax.numpy as jnp
   minutes = np.asarray(minutes, dtype=np.int64)
+  T = len(minutes)
   op, sp, uo, us_ = so.phases_from_reference(S.ref, minutes)
-  s = so.sin_altitude_grid(op, sp, S.lon, S.mu)                       # (T, nlon, nlat)
-  band = np.maximum(BAND, 256 * EPS * np.maximum(uo, us_))[:, None, None]
+  s = so.sin_altitude_grid(op, sp, S.lon, S.mu).reshape(T, -1)          # (T, nlon*nlat)
+  band = np.maximum(BAND, 256 * EPS * np.maximum(uo, us_))[:, None]
   night = s <= -band
   day = s >= band
-  rec.note('nodes_within_terminator_band', int(s.size - night.sum() - day.sum()))
+  rec.note('nodes_within_terminator_band', int(s.size - np.count_nonzero(night) - np.count_nonzero(day)))
   Sref = so.irradiance(op)
-  T = len(minutes)
   keys = {}
   fields = {}
+
+  def signs(fl, k, top, variant, prefix, extra):
+    mn, mx, nhi, nlo, dlo = _sign_stats(fl, night, day)
+    i = _first_true(~(mn >= 0))
+    rec.check(i is None, prefix + 'nonnegative', k[i or 0], {} if i is None else dict(extra, min=float(mn[i]), variant=variant))
+    i = _first_true(~(mx <= top * (1 + 8 * EPS)))
+    rec.check(i is None, prefix + 'le_perihelion_constant', k[i or 0],
+              {} if i is None else dict(extra, max_over_perihelion_constant=float(mx[i] / top), variant=variant))
+    i = _first_true(~((nhi == 0) & (nlo == 0)))
+    rec.check(i is None, prefix + 'zero_below_horizon', k[i or 0],
+              {} if i is None else dict(extra, variant=variant, nodes=int(np.count_nonzero((fl[i] != 0) & night[i])),
+                                        max_abs=float(max(abs(nhi[i]), abs(nlo[i]))),
+                                        ref_sin_altitude_there=float(s[i][(fl[i] != 0) & night[i]].min())))
+    i = _first_true(~(dlo > 0))
+    rec.check(i is None, prefix + 'positive_above_horizon', k[i or 0],
+              {} if i is None else dict(extra, variant=variant, nodes=int(np.count_nonzero(~(fl[i] > 0) & day[i])),
+                                        ref_sin_altitude_there=float(s[i][~(fl[i] > 0) & day[i]].max())))
+
   for variant, fun in (('flux', S.f), ('normalized', S.fn)):
-    fl = np.asarray(fun(jnp.asarray(t_nd)))
+    fl = np.asarray(fun(jnp.asarray(t_nd))).reshape(T, -1)
     fields[variant] = fl
     unit = S.wm2 if variant == 'flux' else 1.0 / S.smax     # implementation value of 1 W/m^2 in this variant
     top = S.smax * unit
@@ -242,78 +274,67 @@ def _solar_chunk(S, rec, minutes, t_nd, *, shifts, tag):
     keys[variant] = k
     for i in range(T):
       rec.case(k[i], transitions=1, outcome=fl[i].tobytes(),
-               sample={'grid': S.grid_name, 'reference': list(S.ref), 'variant': variant, 'model_minute': int(minutes[i]),
-                       'nodes': [S.nlon, S.nlat], 'max_flux': float(fl[i].max()), 'lit_fraction': float((fl[i] > 0).mean())})
-    bad = ~np.isfinite(fl).all(axis=(1, 2))
-    i = _first_true(bad)
-    rec.check(i is None, 'flux_finite', k[i or 0], {'variant': variant})
-    i = _first_true((fl < 0).any(axis=(1, 2)))
-    rec.check(i is None, 'flux_nonnegative', k[i or 0], {} if i is None else {'min': float(fl[i].min()), 'variant': variant})
-    over = fl.max(axis=(1, 2)) / top
-    i = _first_true(~(over <= 1 + 8 * EPS))
-    rec.check(i is None, 'flux_le_perihelion_constant', k[i or 0],
-              {} if i is None else {'max_over_perihelion_constant': float(over[i]), 'variant': variant})
-    nz = (fl != 0) & night
-    i = _first_true(nz.any(axis=(1, 2)))
-    rec.check(i is None, 'flux_zero_below_horizon', k[i or 0],
-              {} if i is None else {'variant': variant, 'nodes': int(nz[i].sum()), 'max_abs': float(np.abs(fl[i][night[i]]).max()),
-                                    'ref_sin_altitude_there': float(s[i][nz[i]].min())})
-    dark = ~(fl > 0) & day
-    i = _first_true(dark.any(axis=(1, 2)))
-    rec.check(i is None, 'flux_positive_above_horizon', k[i or 0],
-              {} if i is None else {'variant': variant, 'nodes': int(dark[i].sum()), 'ref_sin_altitude_there': float(s[i][dark[i]].max())})
+               sample=None if i else {'grid': S.grid_name, 'reference': list(S.ref), 'variant': variant, 'model_minute': int(minutes[i]),
+                                      'entry': tag, 'nodes': [S.nlon, S.nlat], 'max_flux': float(fl[i].max()),
+                                      'lit_fraction': float((fl[i] > 0).mean())})
+    signs(fl, k, top, variant, 'flux_', {})
     if S.gauss:
-      ratio = so.global_mean(fl, S.w) / (Sref * unit / 4.0)
-      i = int(np.argmax(np.abs(np.nan_to_num(ratio, nan=np.inf) - 1.0)))
+      ratio = so.global_mean(fl.reshape(T, S.nlon, S.nlat), S.w) / (Sref * unit / 4.0)
+      i = int(np.argmax(np.abs(ratio - 1.0)))               # argmax returns the first NaN if there is one
       rec.close(ratio[i], 1.0, scale=S.qbound, C=1.0, eps=1.0, site='global_mean_is_quarter_S', key=k[i],
                 extra={'variant': variant, 'S_ref': float(Sref[i]), 'quadrature_bound': S.qbound})
     else:
       rec.note('global_mean_skipped_non_gauss_grid', T)
   # normalised == flux / (S0 + dS)
   a = fields['normalized']; b = fields['flux'] / (S.smax * S.wm2)
-  i = int(np.argmax(np.abs(np.nan_to_num(a - b, nan=np.inf)).max(axis=(1, 2))))
-  rec.close(a[i], b[i], scale=1.0, site='normalized_is_flux_over_perihelion_constant', key=keys['normalized'][i])
+  np.subtract(b, a, out=b); np.abs(b, out=b)
+  i = int(np.argmax(b.max(axis=1)))
+  rec.close(a[i], fields['flux'][i] / (S.smax * S.wm2), scale=1.0, site='normalized_is_flux_over_perihelion_constant', key=keys['normalized'][i])
   # periodicity under +-1461 days of model time (2*pi*4 in orbital phase, 2*pi*1461 in daily phase)
   for sh_ in shifts:
     m2 = minutes + sh_ * FOUR_YEARS_MIN
     t2 = S.times(m2)
     _, _, uo2, us2 = so.phases_from_reference(S.ref, m2)
     for variant, fun in (('flux', S.f), ('normalized', S.fn)):
-      fl2 = np.asarray(fun(jnp.asarray(t2)))
-      unit = S.wm2 * S.smax if variant == 'flux' else 1.0
+      fl2 = np.asarray(fun(jnp.asarray(t2))).reshape(T, -1)
+      top = S.wm2 * S.smax if variant == 'flux' else 1.0
       k2 = [('solar_shift', S.grid_name, S.ref_name, variant, tag, int(m), sh_) for m in minutes]
       for i in range(T):
         rec.case(k2[i], transitions=1, outcome=fl2[i].tobytes())
-      d = np.abs(np.nan_to_num(fl2 - fields[variant], nan=np.inf)).max(axis=(1, 2))
-      sc = unit * np.maximum(1.0, np.maximum(us2, us_))
+      d = np.abs(fl2 - fields[variant]).max(axis=1)
+      sc = top * np.maximum(1.0, np.maximum(us2, us_))
       i = int(np.argmax(d / sc))
       rec.close(fl2[i], fields[variant][i], scale=sc[i], site='periodic_under_1461_days', key=k2[i],
                 extra={'variant': variant, 'shift_days': 1461 * sh_})
-      # the shifted field obeys the same sign oracles
-      i = _first_true(((fl2 != 0) & night).any(axis=(1, 2)) | (~(fl2 > 0) & day).any(axis=(1, 2)) | (fl2 < 0).any(axis=(1, 2)))
-      rec.check(i is None, 'shifted_flux_day_night', k2[i or 0], {'variant': variant, 'shift_days': 1461 * sh_})
+      # the shifted field obeys the same bounds and day / night oracles
+      signs(fl2, k2, top, variant, 'shifted_flux_', {'shift_days': 1461 * sh_})
+
+
+CHUNK = 48   # times per evaluation (one compiled shape; arrays stay cache sized)
 
 
 def _solar_unit(unit, rec):
   S = _Solar(unit['grid'], unit['ref'])
   step = unit['step']
   for d in unit['days']:
-    minutes = d * 1440 + np.arange(0, 1440, step)
+    day_minutes = d * 1440 + np.arange(0, 1440, step)
     special = d in unit['shift_days']
-    if special and d % 2 == 0:
-      t_nd = S.times_via_datetime(minutes, as_np64=(d % 4 == 0))     # the datetime entry point of the class
-      tag = 'datetime64' if d % 4 == 0 else 'datetime'
-    else:
-      t_nd = S.times(minutes)
-      tag = 'time'
-    _solar_chunk(S, rec, minutes, t_nd, shifts=(1, -1) if special else (), tag=tag)
+    for c0 in range(0, len(day_minutes), CHUNK):
+      minutes = day_minutes[c0:c0 + CHUNK]
+      if special and d % 2 == 0:
+        t_nd = S.times_via_datetime(minutes, as_np64=(d % 4 == 0))     # the datetime entry point of the class
+        tag = 'datetime64' if d % 4 == 0 else 'datetime'
+      else:
+        t_nd = S.times(minutes)
+        tag = 'time'
+      _solar_chunk(S, rec, minutes, t_nd, shifts=(1, -1) if special else (), tag=tag)
 
 
 def _solar_long_unit(unit, rec):
   S = _Solar(unit['grid'], unit['ref'])
   minutes = np.arange(unit['first'], unit['last'], unit['step'], dtype=np.int64)
-  for i0 in range(0, len(minutes), 128):
-    m = minutes[i0:i0 + 128]
+  for i0 in range(0, len(minutes), CHUNK):
+    m = minutes[i0:i0 + CHUNK]
     _solar_chunk(S, rec, m, S.times(m), shifts=(), tag='time')
 
 
